@@ -177,6 +177,20 @@ public:
 
   // ---- introspection for oracles
   uint64_t steps() const { return steps_; }
+  // a logical time stamp for history oracles: strictly increasing over the calls made during a run
+  // (one logical thread runs at a time, so the order of stamps is the order in which the stamped
+  // events really happened); the upper bits are the scheduling-point counter
+  uint64_t stamp()
+  {
+    if (steps_ != stamp_step_)
+    {
+      stamp_step_ = steps_;
+      stamp_sub_  = 0;
+    }
+    else if (stamp_sub_ < 4095)
+      ++stamp_sub_;
+    return (steps_ << 12) | stamp_sub_;
+  }
   uint64_t now_ns() const { return now_ns_; }
   uint64_t preemptions() const { return preemptions_; }
   uint64_t spurious_failures() const { return spurious_; }
@@ -484,6 +498,7 @@ private:
   std::vector<int> alt_ids_;
   int current_   = 0;
   int last_run_  = 0;
+  uint64_t stamp_step_ = ~uint64_t(0), stamp_sub_ = 0;
   uint64_t steps_ = 0, now_ns_ = 1000000, preemptions_ = 0, spurious_ = 0, forced_switches_ = 0;
   unsigned run_len_ = 0;
 };
